@@ -211,6 +211,8 @@ class Engine(StmtMixin):
                     s2.add(f)
                 r = s2.check()
             return ("covered" if r == z3.sat else "vacuous" if r == z3.unsat else "unknown"), time.time() - t0, None
+        if getattr(self.cur_contract, "open_goal", False):
+            goal = self.open_goal(goal, base)
         neg = z3.Not(self._skolemize(goal))
         forms = base + [neg]
         allf = self.saturate(forms, base, depth, focus=[neg])
@@ -418,6 +420,40 @@ class Engine(StmtMixin):
                     have.add(fact.get_id())
                     out.append(fact)
         return out
+
+    def open_goal(self, goal, known, depth=4):
+        """a conjunct of the goal that is an application P(x) of a revealed Boolean spec predicate is replaced by its
+        definitional body (P(x) <=> body), repeatedly: universal quantifiers inside then surface and are skolemised like any
+        other part of the goal (contract option `open_goal=True`)"""
+        from .core import _conjuncts, _note_recognisers, _simplify_known
+
+        names = {d.name(): n for n, d in self.speclib.decls.items()}
+        g = {}
+        for k in known:
+            _note_recognisers(k, g)
+
+        def opened(f, d):
+            if d <= 0:
+                return f
+            if z3.is_and(f):
+                return z3.And(*[opened(c, d) for c in f.children()])
+            if z3.is_app(f) and f.decl().kind() == z3.Z3_OP_IMPLIES:
+                return z3.Implies(f.arg(0), opened(f.arg(1), d))
+            if z3.is_app(f) and z3.is_bool(f) and f.decl().name() in names:
+                n = names[f.decl().name()]
+                if n in self.speclib.opaque and n not in self.speclib.revealed:
+                    return f
+                self.speclib._ghost = g
+                try:
+                    body = self.speclib.instance(n, f).arg(1)
+                except Unsupported:
+                    return f
+                finally:
+                    self.speclib._ghost = None
+                return opened(_simplify_known(body, g), d - 1)
+            return f
+
+        return opened(goal, depth)
 
     def _skolemize(self, goal):
         """universally quantified conjuncts of a goal: replace bound variables by fresh constants
